@@ -415,6 +415,10 @@ def build_stack(r, height: int, names=None, payload=None, pad_to=None, max_blob=
     if prefix.endswith(b" ") and dl == b" ":
         prefix = prefix[:-1]
     suffix = netgen.neutral_text(r)
+    if encs[0].name == "concat" and dr == b" " and r.random() < 0.3:
+        # the chain is followed by a further operator and something that is not a literal (a variable, a constant)
+        suffix = r.choice([b"& vbCrLf", b"+ x", b"+y", b"&", b"&amp; z", b"_\r\n& vbTab"]) + b" " + suffix
+        dr = r.choice([b" ", b""])
     if dr == b" " and not suffix:
         dr = b""
     data = prefix + dl + blob + dr + suffix
